@@ -90,7 +90,7 @@ STYLES = ['rfc1123', 'rfc850', 'asctime', 'rfc1123+length', 'rfc850+length', 'as
 
 
 # ------------------------------------------------------------------ RFC 7233 model
-_CANON = re.compile(r'^bytes=((\d+)-(\d*)|-(\d+))(,.*)?$', re.S)
+_CANON = re.compile(r'^bytes=(?:(?P<a>\d+)-(?P<b>\d+)[ \t]*|-(?P<suf>\d+)[ \t]*|(?P<open>\d+)-)(?P<rest>,.*)?$', re.S)        # (optional blanks before the comma of a list - not after an open-ended first range)
 
 
 def model_range(header, n):
@@ -102,7 +102,7 @@ def model_range(header, n):
             return ('not_a_range',)         # no dash: under no reading does the first element denote a range, so there is no slice a 206 could describe
     if not m or not header.isascii():
         return ('lenient',)
-    rest = m.group(5)
+    rest = m.group('rest')
     if rest is not None:
         # the remaining list must itself be well-formed for the header to count as canonical
         for spec in rest[1:].split(','):
@@ -111,13 +111,13 @@ def model_range(header, n):
             a, _, b = spec.strip().partition('-')
             if a and b and int(b) < int(a):
                 return ('lenient',)
-    if m.group(4) is not None:
-        suf = int(m.group(4))
+    if m.group('suf') is not None:
+        suf = int(m.group('suf'))
         if suf == 0 or n == 0:
             return ('416',)
         return ('206', max(0, n - suf), n - 1)
-    first = int(m.group(2))
-    last = m.group(3)
+    first = int(m.group('a') if m.group('a') is not None else m.group('open'))
+    last = m.group('b') if m.group('b') is not None else ''
     if last != '':
         last = int(last)
         if last < first:
@@ -332,6 +332,9 @@ def run(ctx):
                 for k in (1, 10, 63, 64, 65, 127, 128, 199, 200, 201, 255, 256, 257, 1000, 5000):
                     for first in ('2-5', '-3', f'{n}-', '0-'):
                         ctx.guarded(check_case, {'n': n, 'buf': 8, 'mtime': T0 + 5, 'range': 'bytes=' + first + ',' + ','.join(['1-1'] * k)})
+            for n in (0, 12, 50):
+                for rng in ('bytes=10-25 ,30-40', 'bytes=-7 , 0-3', 'bytes=2-5\t,1-1', 'bytes=2-5 , 7-8 ,9-9', 'bytes=0-0 ,-1'):
+                    ctx.guarded(check_case, {'n': n, 'buf': 8, 'mtime': T0 + 5, 'range': rng})
             for n in (0, 1, 10, 50):
                 for rng in ('bytes=5', 'bytes=0', 'bytes=42,50-60', 'bytes= 7 ', 'bytes=9', 'bytes=3,', 'bytes=1 2', 'bytes=07', 'bytes=5,0-1', 'bytes=0--0', 'bytes=4-', 'bytes=-4'):
                     ctx.guarded(check_case, {'n': n, 'buf': 8, 'mtime': T0 + 5, 'range': rng})
